@@ -430,7 +430,10 @@ Record ostep := {
   os_parent : option N;            (* index of the parent run, if any *)
   os_flow : N;                     (* f_id of the run's flow *)
   os_node : N;
-  os_saved : list (text * text);   (* (name, category) of the run_result_changed events logged on the step, in order *)
+  os_saved : list (text * text);   (* (name, category) of the run_result_changed events logged on the step, in order.
+                                      saveResult logs the event only when value or category changed: an unchanged
+                                      re-save is not observed, but it is a save of the same configured (name,
+                                      category), so "saved or re-saved" is over-approximated all the same *)
   os_touched : list aref;          (* fixed asset references carried by events logged on the step *)
   os_exit : option N;              (* the exit written on the step (step.Leave) *)
   os_resumed : bool                (* the step was the waiting step of an accepted resume *)
